@@ -52,6 +52,17 @@ impl PauseSystem for SvmSys {
         match op {
             Op::Pause => self.w.vm.exec(&self.w.ix_panic_pause(self.admin)).is_ok(),
             Op::AdminUnpause => self.w.vm.exec(&self.w.ix_panic_unpause(self.admin)).is_ok(),
+            Op::Other(k) if k >= 3 => {
+                // config_group_fee by the current admin: toggles the group's program-fee flag (writes the group account,
+                // where the pause cache lives)
+                use anchor_lang::{InstructionData, ToAccountMetas};
+                self.edits += 1;
+                let ix = mfi_ix(
+                    marginfi::accounts::ConfigGroupFee { marginfi_group: self.w.group, global_fee_admin: self.admin, fee_state: self.w.fee_state }.to_account_metas(Some(true)),
+                    marginfi::instruction::ConfigGroupFee { enable_program_fee: self.edits % 2 == 0 }.data(),
+                );
+                self.w.vm.exec(&ix).is_ok()
+            }
             Op::Other(k) => {
                 // edit_global_fee_state by the current admin: k = 0 keeps the admin and changes a fee parameter,
                 // k >= 1 hands the role to the admin's other key (primary <-> second)
@@ -114,12 +125,12 @@ fn op_strategy() -> impl Strategy<Value = Op> {
         2 => Just(Op::AdminUnpause),
         2 => Just(Op::PermissionlessUnpause),
         3 => Just(Op::Propagate),
-        2 => (0u8..3).prop_map(Op::Other),
+        2 => (0u8..4).prop_map(Op::Other),
         6 => delta.prop_map(Op::Wait),
     ]
 }
 
-pub const RULE: &str = "instruction level: random histories (boundary-biased waits) of panic_pause / panic_unpause / panic_unpause_permissionless / propagate_fee_state / edit_global_fee_state (fee parameters, admin hand-over to a second key and back) executed through the real program entry point in a generated-time world; after every step the same history invariants as the pure part are judged on the fee-state bytes, and the gate is observed by executing a real deposit (with the group's cache as last propagated, and with a freshly propagated cache). Non-trivial = history with an extension and a daily reset, or a gate query within 1 s of expiry.";
+pub const RULE: &str = "instruction level: random histories (boundary-biased waits) of panic_pause / panic_unpause / panic_unpause_permissionless / propagate_fee_state / edit_global_fee_state (fee parameters, admin hand-over to a second key and back) / config_group_fee executed through the real program entry point in a generated-time world; after every step the same history invariants as the pure part are judged on the fee-state bytes, and the gate is observed by executing a real deposit (with the group's cache as last propagated, and with a freshly propagated cache). Non-trivial = history with an extension and a daily reset, or a gate query within 1 s of expiry.";
 
 fn run_seq(t0: i64, ops: &[Op]) -> Option<crate::props::c15::HistoryResult> {
     let mut sys = SvmSys::new(t0)?;
